@@ -246,9 +246,10 @@ Print Assumptions C01_colr_bits_refuted.
 Theorem C01_url_tail_refuted : refutes w_url_tail [(n_url, RSizeBig)].
 Proof. exact url_tail_refuted. Qed.
 Print Assumptions C01_url_tail_refuted.
-Theorem C01_senc_zero_refuted : refutes w_senc_zero [(n_senc, RGuard)].
-Proof. exact senc_zero_refuted. Qed.
-Print Assumptions C01_senc_zero_refuted.
+Theorem C01_senc_zero_fixed : exists t rest enc,
+  decode w_senc_zero = Ok (t, rest) /\ raw_box false t = Ok enc /\ enc ++ rest = w_senc_zero /\ why_box t = [].
+Proof. exact senc_zero_fixed. Qed.
+Print Assumptions C01_senc_zero_fixed.
 Theorem C01_senc_large_fixed : decode w_senc_large = Err.
 Proof. exact senc_large_fixed. Qed.
 Print Assumptions C01_senc_large_fixed.
